@@ -75,6 +75,7 @@ var vC09Classes = []string{
 	"x-as-ca-leaf",
 	"x-as-ca-leaf-ca-registered",
 	"other-account-genuine",
+	"genuine-two-common-names",
 	"genuine-cert-without-its-key",
 	"no-certificate",
 }
@@ -204,6 +205,14 @@ func vC09MakeCred(reg *vC09Registry, class string, r *vs.Rand) (vC09Cred, error)
 		par := x.Certs["ca"]
 		der, err = vC09SignedBy(vC09Spec{CN: x.Bech, Serial: par.Serial, Window: "current"}, &fresh.PublicKey, par.Parsed, par.Key)
 		c.Chain, c.Key = [][]byte{der}, fresh
+	case "genuine-two-common-names":
+		// X's own, published, valid certificate whose subject has a first
+		// commonName naming another account and X's address last
+		tc := x.Certs["twocn"]
+		c.Chain, c.Key = [][]byte{tc.DER}, tc.Key
+		if p, e := x509.ParseCertificate(tc.DER); e == nil && p.Subject.CommonName != x.Bech {
+			err = fmt.Errorf("harness: the two-CN certificate parses with CN %q", p.Subject.CommonName)
+		}
 	case "genuine-cert-without-its-key":
 		c.Chain, c.Key = [][]byte{valid.DER}, fresh
 	case "no-certificate":
